@@ -78,6 +78,11 @@ def handler : Handler := fun scn => do
   let mut ok := true
   let mut why := ""
   if !noLeak st then throw "initial state already violates the invariant (outside the property's hypothesis)"
+  -- "stale": per round, whether the first read of the XR is served by a lagging cache (the XR as it
+  -- was when the previous round started); absent = every read is fresh
+  let stale : List Bool := (arr scn "stale").map fun j => match j with | .bool b => b | _ => false
+  let mut prev : St := st
+  let mut idx : Nat := 0
   for rd in arr scn "rounds" do
     let ds := (arr rd "desired").map desiredOf
     let h := obj rd "hints"
@@ -88,7 +93,7 @@ def handler : Handler := fun scn => do
     let ver := if str rd "ver" == "" then "v1" else str rd "ver"
     let ch : Choices := ⟨ver, gen.map (·.2), orderBy (·.annot) (strs h "gc"), orderBy (·.d.rname) (strs h "apply")⟩
     let m : Mode := if mode == "fn" then
-        .fn (fun _ => if fnErr == "" then .desired (orderBy (·.rname) (gen.map (·.1)) ds) else .failed) ch
+        .fn (fun _ => if fnErr == "" then .desired (orderBy (·.rname) (gen.map (·.1)).eraseDups ds) else .failed) ch
       else .pt ds (gen.map (·.2)) ver
     let plan : Plan := if has rd "fault" then
         let f := obj rd "fault"
@@ -97,7 +102,12 @@ def handler : Handler := fun scn => do
     -- composed resources missing from the informer cache during this reconcile (absent = none)
     let miss : List Ref := (arr rd "miss").map fun j => ⟨str j "kind", str j "name"⟩
     st := { st with miss := miss }
-    let prog := reconcile m
+    -- `gen`: one entry (resource name, candidate) per candidate the name generator drew, in order
+    -- (several per resource when candidates were taken); the generator retries up to `maxTries` times
+    let prog := if stale.getD idx false then reconcileStaleT maxTries m prev.xrFin prev.xrRv prev.refs
+      else reconcileT maxTries m
+    prev := st
+    idx := idx + 1
     let log := callLog sem plan 0 prog st
     let res := run sem plan 0 prog st
     let states := reach sem plan 0 prog st
